@@ -51,6 +51,8 @@ REQUIRED_THEOREMS = [
     "prepare_edges_refines", "file_route_source", "file_route_never_fails",
     # round 6: from_arrays, load, the dimensionality property, the one-line container accessors and id_* properties
     "accessors_source", "from_arrays_bridge", "from_arrays_vertices_3d", "load_bridge", "load_file_route", "dimensionality_cache_source",
+    # round 7: the remaining container methods on the construction path
+    "container_methods_source", "create_attribute_source", "create_flag_source",
 ]
 TRUSTED = [
     "Lean 4.33.0 kernel; axioms ⊆ {propext, Classical.choice, Quot.sound}",
@@ -74,6 +76,10 @@ TRUSTED = [
     "translator, round 6: from_arrays (numpy arrays = lists of rows with their column counts w / ew as parameters, np.pad, np.any(.. >= n), "
     "`+=` = concatenation, `raise` = Except.error), load (read_by_extension's result is a parameter), the dimensionality property "
     "(its cache is a parameter) and the one-line accessors (__len__, empty, has_attribute, attributes, id_*) emitted as abbreviations",
+    "translator, round 7: DataContainer.__getitem__ / __setitem__ / __iter__ / __iadd__, the three container constructors, get_attribute and "
+    "create_attribute are read too and called by the compiled bodies; what stays vocabulary: `self._attr[name] = a` (attrDictSet), "
+    "`a._expand(k)` (expandAttr) and reads through an attribute handle (findAttr) - the first two are cross-checked against C05's "
+    "independent heap-level translation of the same file in Props/C02C05.lean (append_agrees, has_attribute_agrees; not part of this check)",
     "row-typed model prepareR (Lemmas/C02Rows.lean) tied to the code by the K section of the correspondence: type(row) of every "
     "stored edge/face/cell row for list, tuple and numpy input rows",
     "Python set/dict of key tuples abstracted to lists with membership; numpy int rows abstracted to integer lists "
@@ -96,7 +102,8 @@ RULE = ("raw scenarios (points, polylines, manifold polygon surfaces, tet meshes
         "representation varied per scenario (python ints / numpy scalars / int32,int64,uint8,uint32,uint64 rows; float64, float32, "
         "integer vertices; C/Fortran-ordered and read-only arrays; shared row objects) against the same exact-valued model "
         "request; histories on one object: the same raw data wrapped by a second mesh class, elements appended to the built "
-        "mesh then built again from it (other switches), save -> load through .obj/.mesh; the mesh built first is re-read by "
+        "mesh then built again from it (other switches), save -> load through .obj/.mesh; raw edge containers filled in two steps (`+=` after "
+        "the attributes were created); the mesh built first is re-read by "
         "value after every second construction; every container, attribute, corner record and the "
         "class are compared with the Lean model; non-trivial = distinct scenario whose construction succeeds and holds at "
         "least one face, cell or declared edge")
@@ -170,6 +177,10 @@ def _finish(rng, sc):
             and not any(a["name"] == "hard_edges" for a in c["EA"]):
         c["EA"] = c["EA"] + [{"name": "hard_edges", "dense": False, "dflt": None,
                               "vals": {str(i): 1 for i in range(len(c["E"])) if rng.random() < .5}}]
+    # ---- raw containers filled in two steps: some declared edges are added with `+=` AFTER the edge attributes were created
+    # (DataContainer.__iadd__ then has attributes to expand); the finished object must be the same
+    if via == "raw" and c["EA"] and len(c["E"]) >= 2 and rng.random() < .3:
+        c["late"] = rng.randint(1, len(c["E"]) - 1)
     # ---- numeric representation of rows and coordinates
     allidx = [x for fld in ("E", "F", "C") for row in c[fld] for x in row] + \
              [x for fld in ("E", "F", "C") for row in (c.get("app") or {}).get(fld, []) for x in row]
@@ -377,12 +388,16 @@ def _make_raw(case, ct, via):
     else:
         d = RawMeshData()
         d.vertices += _vrows(case["V"], ct, case)
-        d.edges += _rows(case["E"], ct, case)
+        erows = _rows(case["E"], ct, case)
+        late = case.get("late") or 0
+        d.edges += erows[:len(erows) - late]
         d.faces += _rows(case["F"], ct, case)
         d.cells += _rows(case["C"], ct, case)
     npval = _rep(case, "idx", "py") != "py"
-    for a in case["EA"]:
-        at = d.edges.create_attribute(a["name"], int, dense=a["dense"], default_value=a["dflt"])
+    ats = [(a, d.edges.create_attribute(a["name"], int, dense=a["dense"], default_value=a["dflt"])) for a in case["EA"]]
+    if via == "raw" and (case.get("late") or 0):
+        d.edges += erows[len(erows) - case["late"]:]           # `+=` on a container that already has attributes
+    for a, at in ats:
         for k, v in sorted(a["vals"].items(), key=lambda kv: int(kv[0])):
             at[int(k)] = np.int64(v) if npval else int(v)
     return d
@@ -1003,6 +1018,7 @@ def classify(case, obs):
         ks.append("arr:" + _rep(case, "order", "C") + ("+readonly" if _rep(case, "ro", False) else ""))
         if not case["V"]: ks.append("arr:empty")
     if _rep(case, "alias", False): ks.append("rows:shared-objects")
+    if case.get("late"): ks.append("fill:edges-added-after-attributes")
     if _api_entry(case, case["ctype"], case["via"]): ks.append("entry:public-api")
     if any(a["name"] == "hard_edges" for a in case["EA"]): ks.append("attr:caller-hard_edges")
     if case["build"] == "append":
@@ -1029,6 +1045,7 @@ def shrink(case, still):
     for k, v in (("build", "once"), ("how", "inst:N"), ("ce", True), ("cf", True)):
         if cur[k] != v: attempt(dict(cur, **{k: v}))
     if cur["via"] in ("arrays", "file"): attempt(dict(cur, via="raw"))
+    if cur.get("late"): attempt({k: v for k, v in cur.items() if k != "late"})
     if cur.get("rep"):
         attempt({k: v for k, v in cur.items() if k != "rep"})
         for name, plainv in (("idx", "py"), ("vert", "f64"), ("order", "C"), ("ro", False), ("alias", False), ("api", False)):
@@ -1056,6 +1073,7 @@ def shrink(case, still):
                         nv[str(kk - 1 if kk > i else kk)] = vv
                     ea.append(dict(a, vals=nv))
                 c["EA"] = ea
+                if c.get("late"): c["late"] = min(c["late"], max(len(c["E"]) - 1, 0)) or None
             if not attempt(c): i += 1
     # drop unused trailing vertices
     used = [x for fld in ("E", "F", "C") for r in cur[fld] for x in r]
@@ -1207,20 +1225,20 @@ SOURCE_MAP = {
     # ---- datatypes/base.py
     f"{_BS}::Mesh.__init__": "translated",                           # C02S.meshInitTable / mesh_init_bridge, rewrap_follows_mesh_init
     # ---- data_container.py
-    f"{_DC}::_BaseDataContainer.__init__": "modelled",
+    f"{_DC}::_BaseDataContainer.__init__": "translated",   # C02B.baseInit / container_methods_source
     f"{_DC}::_BaseDataContainer.empty": "out-of-scope: abstract",
     f"{_DC}::_BaseDataContainer.clear": "out-of-scope: abstract",
     f"{_DC}::_BaseDataContainer.attributes": "translated",       # C02B.dcAttributes / accessors_source (iterated by _prepare_edges)
-    f"{_DC}::_BaseDataContainer.create_attribute": "modelled",       # PrepSrc.createFlagAttr / Attr records
+    f"{_DC}::_BaseDataContainer.create_attribute": "translated",   # C02B.dcCreateAttribute / create_attribute_source, create_flag_source / container_methods_source
     f"{_DC}::_BaseDataContainer.register_array_as_attribute": "out-of-scope: attribute API (C05); the harness creates dense attributes through create_attribute",
     f"{_DC}::_BaseDataContainer.delete_attribute": "out-of-scope: attribute API (C05)",
     f"{_DC}::_BaseDataContainer.has_attribute": "translated",   # C02B.dcHasAttr / accessors_source (called by the translated bodies)
-    f"{_DC}::_BaseDataContainer.get_attribute": "modelled",
+    f"{_DC}::_BaseDataContainer.get_attribute": "translated",   # C02B.dcGetAttribute (handles are read through findAttr) / container_methods_source
     f"{_DC}::_BaseDataContainer.append": "out-of-scope: abstract",
-    f"{_DC}::DataContainer.__init__": "modelled",
-    f"{_DC}::DataContainer.__getitem__": "modelled",
-    f"{_DC}::DataContainer.__setitem__": "modelled",
-    f"{_DC}::DataContainer.__iter__": "modelled",
+    f"{_DC}::DataContainer.__init__": "translated",   # C02B.dcInit / container_methods_source
+    f"{_DC}::DataContainer.__getitem__": "translated",   # C02B.dcGet / container_methods_source
+    f"{_DC}::DataContainer.__setitem__": "translated",   # C02B.dcSet / container_methods_source
+    f"{_DC}::DataContainer.__iter__": "translated",   # C02B.dcIter / container_methods_source
     f"{_DC}::DataContainer.__repr__": "out-of-scope: printing",
     f"{_DC}::DataContainer.__str__": "out-of-scope: printing",
     f"{_DC}::DataContainer.__len__": "translated",   # C02B.dcLen / accessors_source (called by the translated bodies)
@@ -1228,8 +1246,8 @@ SOURCE_MAP = {
     f"{_DC}::DataContainer.empty": "translated",   # C02B.dcEmpty / accessors_source (called by the translated bodies)
     f"{_DC}::DataContainer.clear": "out-of-scope: not used by the construction code",
     f"{_DC}::DataContainer.append": "translated",                    # C02B.dataAppend / data_append_source (used by every X.append(..) of the bodies)
-    f"{_DC}::DataContainer.__iadd__": "modelled",                    # `m.x += list(X)` of from_arrays: concatenation (and how the harness fills raw containers)
-    f"{_DC}::CornerDataContainer.__init__": "modelled",
+    f"{_DC}::DataContainer.__iadd__": "translated",   # C02B.dcIaddList, dcIaddCont (from_arrays goes through dcIaddList) / container_methods_source
+    f"{_DC}::CornerDataContainer.__init__": "translated",   # C02B.cornerInit / container_methods_source
     f"{_DC}::CornerDataContainer.__getitem__": "oracle-only",        # later-query battery
     f"{_DC}::CornerDataContainer.element": "oracle-only",
     f"{_DC}::CornerDataContainer.adj": "oracle-only",
